@@ -92,8 +92,12 @@ func applyTIFFPredictor2(data []byte, params Params) ([]byte, error) {
 		return nil, fmt.Errorf("TIFF Predictor 2 only supports 8 bits per component, got %d", bpc)
 	}
 
+	if columns <= 0 || colors <= 0 {
+		return nil, fmt.Errorf("invalid predictor parameters: Columns %d, Colors %d", columns, colors)
+	}
+
 	rowSize := columns * colors
-	if len(data)%rowSize != 0 {
+	if rowSize <= 0 || len(data)%rowSize != 0 {
 		return nil, fmt.Errorf("data size %d is not a multiple of row size %d", len(data), rowSize)
 	}
 
@@ -127,11 +131,15 @@ func applyPNGPredictor(data []byte, predictor int, params Params) ([]byte, error
 		return nil, fmt.Errorf("PNG predictor only supports 8 bits per component, got %d", bpc)
 	}
 
+	if columns <= 0 || colors <= 0 {
+		return nil, fmt.Errorf("invalid predictor parameters: Columns %d, Colors %d", columns, colors)
+	}
+
 	// PNG predictors work on rows with a predictor byte at the start of each row
 	bytesPerPixel := colors
 	rowSize := columns*colors + 1 // +1 for predictor byte
 
-	if len(data)%rowSize != 0 {
+	if rowSize <= 1 || len(data)%rowSize != 0 {
 		return nil, fmt.Errorf("data size %d is not a multiple of row size %d", len(data), rowSize)
 	}
 
